@@ -265,7 +265,8 @@ def tasks(tier):
     for M in range(1, min(smax, 3) + 1):
         # complex 5x5 (M = 4) gives no result within 150 s in Q(19 symbols): not attempted
         ts.append(hermtoep_task(M, False))
-    for M in range(1, smax):
+    for M in range(1, max(smax, 4)):
+        # M = 3 (a 4x4 system) is the first size at which every entry of the predictor vectors is updated more than once
         ts.append(toeplitz_task(M))
     for method in ("scipy", "numpy", "numpy_solver"):
         for n in (2, 3):
